@@ -511,6 +511,24 @@ func specialScripts(thorough bool) []special {
 	} {
 		add(fmt.Sprintf("nil-default-unfilled-%d", i), "nil-default", src)
 	}
+	// iterators whose container changed under them: whatever they yield must be a complete value
+	for i, src := range []string{
+		`m := {"a": 1, "b": 2, "c": 3}; it := iter(m); it.next(); delete(m, "a"); it.entry()`,
+		`m := {"a": 1, "b": 2, "c": 3}; it := iter(m); it.next(); delete(m, "a"); [it.entry().key, it.entry().value]`,
+		`m := {"a": 1, "b": 2, "c": 3}; it := iter(m); it.next(); m.clear(); [it.entry(), it.next()]`,
+		`m := {"a": 1, "b": 2, "c": 3}; last := 0; for k, v := range m { delete(m, "c"); last = v }; last`,
+		`m := {"a": 1, "b": 2, "c": 3}; acc := []; for k, v := range m { delete(m, "b"); delete(m, "c"); acc.append([k, v]) }; acc`,
+		`m := {"a": 1, "b": 2}; acc := []; for k := range m { m.pop("b", 0); acc.append(m.get(k)) }; acc`,
+		`s := {1, 2, 3}; it := iter(s); it.next(); s.remove(1); [it.entry(), it.next()]`,
+		`s := {1, 2, 3}; acc := []; for i, x := range s { s.remove(3); acc.append([i, x]) }; acc`,
+		`l := [1, 2, 3]; it := iter(l); it.next(); l.clear(); [it.entry(), it.next()]`,
+		`l := [1, 2, 3]; acc := []; for i, x := range l { l.pop(); acc.append([i, x]) }; acc`,
+		`x := "héllo"; it := iter(x); it.next(); [it.entry(), it.entry().key, it.entry().value]`,
+		`m := {"a": [1]}; it := iter(m); it.next(); e := it.entry(); delete(m, "a"); [e, e.value, it.entry()]`,
+		`it := iter({}); [it.next(), it.entry()]`, `it := iter([]); [it.next(), it.entry()]`, `it := iter({"k": nil}); it.next(); it.entry()`,
+	} {
+		add(fmt.Sprintf("iterator-after-mutation-%d", i), "iterator-after-mutation", src)
+	}
 	add("sprintf-width", "format-width", `len(sprintf("%2000000d", 1))`)
 	add("sprintf-precision", "format-width", `len(sprintf("%.2000000f", 1.5))`)
 	add("many-threads", "threads", `ts := []; for i := range 500 { ts.append(spawn(func(x) { return x * 2 }, i)) }; ts.map(func(t) { return t.wait() }) | len`)
